@@ -14,6 +14,8 @@ def ops : List (String × Handler) := [
   ("altdec", fun a =>
     let r : Float × Float := altDec (arg a 0) (arg a 1) (arg a 2) (arg a 3)
     hs [r.1, r.2]),
+  -- altoflen <beta> <len> -> altitude of the point at distance len along the line at elevation beta
+  ("altoflen", fun a => h (altOfLen (arg a 0) (arg a 1) : Float)),
   ("kinconst", fun _ => hs [(massTau : Float), meanTauLife, cLight, rEarth])
 ]
 end Driver.C07
